@@ -39,7 +39,9 @@ namespace T
       G_ATOM2 = 64,    // further byte-level atoms
       G_CORE3 = 128,   // three-argument seq/sor and two-argument star/plus/opt/at/not_at
       G_CONV3 = 256,   // three-argument convenience rules
-      G_HOLE = 512
+      G_HOLE = 512,
+      G_POS = 1024,    // newline-capable atoms for the position oracle (C06)
+      G_BOL = 2048     // bol needs in.column(), which lazy inputs do not have
    };
 #ifndef VERIF_GROUPS
 #define VERIF_GROUPS ( T::G_CORE | T::G_HOLE )
@@ -211,6 +213,7 @@ namespace T
    inline long fuel = 0;
    inline bool fuel_out = false;
    inline const char* g_begin = nullptr;  // first byte of the outermost input's data
+   inline size_t g_ib = 0, g_il = 1, g_ic = 1;  // initial byte / line / column counters of the outermost input
 
    template< unsigned I >
    struct node;
@@ -350,11 +353,17 @@ namespace T
    A0( EOL, G_ATOM2, ( p::eol ) ) \
    A0( EOLF, G_ATOM2, ( p::eolf ) ) \
    A0( BOF, G_ATOM2, ( p::bof ) ) \
-   A0( BOL, G_ATOM2, ( p::bol ) ) \
+   A0( BOL, G_BOL, ( p::bol ) ) \
    A0( BYTES2, G_ATOM2, ( p::bytes< 2 > ) ) \
    A0( EVERYTHING, G_ATOM2, ( p::everything ) ) \
    A0( ISTRING_AB, G_ATOM2, ( p::istring< 'a', 'b' > ) ) \
    A0( RAISE_MSG, G_EXC, ( raise_msg ) ) \
+   A0( ONE_LF, G_POS, ( p::one< '\n' > ) ) \
+   A0( ONE_CR, G_POS, ( p::one< '\r' > ) ) \
+   A0( STRING_CRLF, G_POS, ( p::string< '\r', '\n' > ) ) \
+   A0( SEVEN, G_POS, ( p::seven ) ) \
+   A0( NOT_ONE_LF, G_POS, ( p::not_one< '\n' > ) ) \
+   A0( UTF8_ANY, G_POS, ( p::utf8::any ) ) \
    U1( STAR, G_CORE, w_star ) \
    U1( PLUS, G_CORE, w_plus ) \
    U1( OPT, G_CORE, w_opt ) \
@@ -881,7 +890,7 @@ namespace T
       int c03 = 0;
       std::string c03_msg;
       int c06 = 0;
-      std::string c06_msg;
+      std::string c06_msg, c06_info;
       long rewinds_after_consume = 0;  // vacuity counter: failures under M=required after the cursor had moved
       void reset()
       {
@@ -893,20 +902,75 @@ namespace T
          c04_msg.clear();
          c03_msg.clear();
          c06_msg.clear();
+         c06_info.clear();
       }
    };
    inline Log L;
    inline uint8_t top_A = 1;  // apply mode requested at the parse() call (1 = action)
 
-   // position oracle hook (set by the C06 harness): called with the live input
+   // position oracle (the C06 formula): a function of the consumed prefix and the initial counters only
+   struct PosF
+   {
+      size_t byte, line, column;
+   };
+   inline PosF pos_formula( const char* data, long off, int eol_char, size_t b0, size_t l0, size_t c0 )
+   {
+      PosF r{ b0 + size_t( off ), l0, c0 };
+      for( long i = 0; i < off; ++i ) {
+         if( data[ i ] == eol_char ) {
+            ++r.line;
+            r.column = 1;
+         }
+         else
+            ++r.column;
+      }
+      return r;
+   }
    inline bool check_positions = false;
+   inline std::string classify_pos_diff( const char* data, long off, int eol_char, bool eager, const PosF& got, const PosF& want )
+   {
+      // known shape: cr_crlf policy, eager tracking: eol consumed "\r\n" with bump_to_next_line( 2 ) => column restarts
+      // after the LF instead of after the CR (the policy's line-counting character)
+      if( eager && eol_char == '\r' && got.byte == want.byte && got.line == want.line && got.column + 1 == want.column ) {
+         long i = off;
+         while( i > 0 && data[ i - 1 ] != '\r' ) --i;
+         if( i > 0 && i < off && data[ i ] == '\n' ) return "cr_crlf eager: column is one less than the formula after a CR LF pair";
+      }
+      return "";
+   }
    template< typename In >
-   void position_check( const In& in, const char* where );  // defined by the TU when VERIF_POSITIONS is set
-#ifndef VERIF_POSITIONS
-   template< typename In >
-   void position_check( const In&, const char* )
-   {}
-#endif
+   void position_check( const In& in, const char* where, const std::string& rule )
+   {
+      const auto p = in.position();
+      const long off = in.current() - g_begin;
+      const PosF e = pos_formula( g_begin, off, In::eol_t::ch, g_ib, g_il, g_ic );
+      constexpr bool eager = ( In::tracking_mode_v == p::tracking_mode::eager );
+      bool bad = ( p.byte != e.byte || p.line != e.line || p.column != e.column );
+      std::string what = "in.position()";
+      PosF got{ p.byte, p.line, p.column };
+      if( !bad ) {
+         // the input's own counters
+         if( in.byte() != e.byte ) {
+            bad = true;
+            what = "in.byte()";
+            got.byte = in.byte();
+         }
+         if constexpr( eager ) {
+            if( in.line() != e.line || in.column() != e.column ) {
+               bad = true;
+               what = "in.line()/in.column()";
+               got.line = in.line();
+               got.column = in.column();
+            }
+         }
+      }
+      if( bad ) {
+         ++L.c06;
+         const std::string cls = classify_pos_diff( g_begin, off, In::eol_t::ch, eager, got, e );
+         L.c06_msg = cls.empty() ? what + " differs from the prefix formula" : cls;
+         L.c06_info = std::string( where ) + " of " + rule + ": offset " + std::to_string( off ) + " reported " + std::to_string( got.byte ) + ":" + std::to_string( got.line ) + ":" + std::to_string( got.column ) + " formula " + std::to_string( e.byte ) + ":" + std::to_string( e.line ) + ":" + std::to_string( e.column );
+      }
+   }
 
    inline int expected_A( size_t skip = 0 )
    {
@@ -995,7 +1059,7 @@ namespace T
             ++L.c03;
             L.c03_msg = "cursor beyond end on entry of " + std::string( p::demangle< Rule >() );
          }
-         if( check_positions ) position_check( in, "entry" );
+         if( check_positions ) position_check( in, "entry", std::string( p::demangle< Rule >() ) );
          L.frames.push_back( { rid< Rule >::v, rid< Rule >::kind, b, uint8_t( A == p::apply_mode::action ), uint8_t( M == p::rewind_mode::required ), L.acts.size(), child_mode( rid< Rule >::kind, rid< Rule >::v ) } );
          struct exit_guard
          {
@@ -1018,7 +1082,7 @@ namespace T
             ++L.c03;
             L.c03_msg = "cursor beyond end on exit of " + std::string( p::demangle< Rule >() );
          }
-         if( check_positions ) position_check( in, "exit" );
+         if( check_positions ) position_check( in, "exit", std::string( p::demangle< Rule >() ) );
          if( !r ) {
             L.acts.resize( fr.act_mark );  // whatever fired inside a failed attempt is not part of the derivation
             if( M == p::rewind_mode::required ) {
@@ -1095,6 +1159,15 @@ namespace T
             }
             en = int( ai->end() - g_begin );
             b = int( ai->begin() - g_begin );
+            if( check_positions ) {
+               const auto ap = ai->position();
+               const PosF e = pos_formula( g_begin, b, AI::input_t::eol_t::ch, g_ib, g_il, g_ic );
+               if( ap.byte != e.byte || ap.line != e.line || ap.column != e.column ) {
+                  ++L.c06;
+                  const std::string cls = classify_pos_diff( g_begin, b, AI::input_t::eol_t::ch, AI::input_t::tracking_mode_v == p::tracking_mode::eager, PosF{ ap.byte, ap.line, ap.column }, e );
+                  L.c06_msg = cls.empty() ? "action input position differs from the prefix formula" : cls;
+               }
+            }
          }
       }
       L.acts.push_back( { I, b, en, how } );
